@@ -19,10 +19,10 @@ EXTRAS = ['contract', 'take_contract', 'storage', 'transport', 'multicommodity',
           'scaled_storage']
 PLACES = {'before': (-5, -2), 'after': (7, 9), 'touching_end': (4, 6), 'touching_start': (-2, 0)}
 
-QUICK_WIN = [('scaled', dict(T=3, base='storage', win=(1, 3))), ('contract_storage', dict(T=4, win_s=(1, 3), win_c=(0, 3))), ('two_node', dict(T=3, win_t=(1, 2))),
+QUICK_WIN = [('scaled', dict(T=3, base='storage', win=(1, 3))), ('structured', dict(T=3, inner_win=(0, 2), outer_win=(1, 3))), ('contract_storage', dict(T=4, win_s=(1, 3), win_c=(0, 3))), ('two_node', dict(T=3, win_t=(1, 2))),
              ('multicommodity', dict(T=4, take=(0, 6), win=(1, 3))), ('plant', dict(T=3, fuel=True, win=(1, 3))),
              ('coarse', dict(T=5, kind='contract', win=(1, 5))), ('contract_storage', dict(T=3, win_s=(-1, 2), win_c=(2, 6)))]
-THOROUGH_WIN = QUICK_WIN + [('structured', dict(T=3, inner_win=(0, 2), outer_win=(1, 3))),
+THOROUGH_WIN = QUICK_WIN + [('structured', dict(T=3, inner_win=(0, 2), outer_win=(1, 3), inner_win_all=True)),
                             ('coarse', dict(T=6, kind='transport', eff=0.5, win=(-1, 5))), ('plant', dict(T=4, fuel=True, heat=True, win=(2, 4))),
                             ('windows', dict(T=5, wins=((0, 2), (1, 2), (3, 5), (4, 5)), two_nodes=True))]
 TAKES = [('inside', (1, 3), None), ('straddle_end', (2, 7), None), ('straddle_start', (-2, 2), None), ('outside_after', (6, 8), None),
@@ -177,6 +177,8 @@ def run_window(rec, seed, shape, kw):
                         continue
                     v = zl(disp[col].values[t])
                     kf = 'KF-C08-scaledwin' if (type(a).__name__ == 'ScaledAsset' and known.is_open('KF-C08-scaledwin')) else None
+                    if type(a).__name__ == 'StructuredAsset' and known.is_open('KF-C08-structwin'):
+                        kf = 'KF-C08-structwin'
                     rec.prove(P + '/outside_zero/%s/%d' % (col, t), assume, v == 0, form='Q2', info=dict(kind='window', col=col, t=t), known=kf)
         if not validated:
             validated = scen.validation_request(rec, sc, D, path, seed)
